@@ -14,6 +14,8 @@ def main(path):
     with open(path) as f:
         rec = json.load(f)
     os.environ['VERIF_PROP'] = rec['property']
+    for hfn, hjob in rec.get('history') or []:
+        _tramp((hfn, 0, hjob))      # earlier calls of the same process; their own verdicts are not judged here
     _, res = _tramp((rec['fn'], 0, rec['job']))
     if res.get('harness_error'):
         print(res['harness_error'])
